@@ -9,6 +9,7 @@ from ..mir import deep_strip, tstr, strip_generics, is_call, canon, subterms
 from .. import witness
 
 CONFIGS = ("FULL", "XEN")
+THOROUGH_CONFIGS = ("MIN",)
 WRAP = re.compile(r"^endian::(Le|Be)(16|32|64|Size)$")
 NATIVE = {"16": "u16", "32": "u32", "64": "u64", "Size": "usize"}
 
